@@ -41,6 +41,44 @@ pub enum VD {
     /// a dynamic child whose closure returns `&'static str` ("even" / "odd"): NOT the `String` specialisation — a
     /// marker-delimited dynamic view that holds one text node, on the server too
     DStr(usize),
+    /// site number k of `mx_sites` over signal g: a piece of view written with the `view!` MACRO (compiled into the
+    /// harness) that is equivalent to the builder-made `mx_equiv(k, g)`; everything but `build` works on the equivalent
+    Mx(usize, usize),
+}
+
+/// the builder-made view that macro site k over signal g is equivalent to
+pub fn mx_equiv(k: usize, g: usize) -> VD {
+    match k % MX_SITES {
+        0 => VD::El("p".into(), vec![], vec![VD::DStr(g)]),
+        1 => VD::El("p".into(), vec![], vec![mx_text(g)]),
+        2 => VD::El("span".into(), vec![], vec![mx_text(g)]),
+        3 => VD::DStr(g),
+        4 => VD::El("div".into(), vec![("title".into(), AttrV::Dyn(g))], vec![]),
+        5 => VD::El("span".into(), vec![], vec![VD::DStr(g)]),
+        _ => VD::El("div".into(), vec![("hidden".into(), AttrV::DynBool(g))], vec![VD::Text("x".into()), mx_text(g)]),
+    }
+}
+/// `(expr)` with a `String` value inside `view!` is NOT the text specialisation of `View::from_dynamic` (the macro converts
+/// the value into a `View` inside the closure): an ordinary dynamic region that holds one text node, re-created by every
+/// run. The sites show `dtext_str(value % 8)`, so the region is a `dview` over eight texts
+fn mx_text(g: usize) -> VD {
+    VD::DView(g, (0..8).map(|i| vec![VD::Text(dtext_str(i))]).collect())
+}
+pub const MX_SITES: usize = 7;
+const PARITY: [&str; 2] = ["even", "odd"];
+fn mx_attr(v: u32) -> Option<String> { if v % 3 == 0 { None } else { Some(v.to_string()) } }
+/// a wrapper that forwards an `expr` fragment into `view!` (the proc-macro receives it as an invisible group)
+macro_rules! mx_fwd { ($e:expr) => { view! { span { ($e) } } }; }
+fn mx_build(k: usize, s: Signal<u32>) -> View {
+    match k % MX_SITES {
+        0 => view! { p { (PARITY[(s.get() % 2) as usize]) } },
+        1 => view! { p { (dtext_str(s.get() % 8)) } },
+        2 => mx_fwd!(dtext_str(s.get() % 8)),
+        3 => view! { (PARITY[(s.get() % 2) as usize]) },
+        4 => view! { div(title=mx_attr(s.get())) },
+        5 => mx_fwd!(PARITY[(s.get() % 2) as usize]),
+        _ => view! { div(hidden=s.get() % 2 == 1) { "x" (dtext_str(s.get() % 8)) } },
+    }
 }
 
 pub const KEYED_LISTS: &[&[u32]] = &[&[], &[1], &[1, 2], &[2, 1], &[1, 2, 3], &[3, 1]];
@@ -85,6 +123,7 @@ pub fn sx(v: &VD) -> String {
         VD::OnCleanup(g, v) => format!("(oncleanup {g} {v})"),
         VD::SetNow(g, v) => format!("(setnow {g} {v})"),
         VD::DStr(g) => format!("(dstr {g})"),
+        VD::Mx(k, g) => format!("(mx {k} {g})"),
     }
 }
 
@@ -133,6 +172,7 @@ pub fn rd(s: &Sx) -> Option<VD> {
         "oncleanup" => VD::OnCleanup(num(&l[1])?, num(&l[2])? as u32),
         "setnow" => VD::SetNow(num(&l[1])?, num(&l[2])? as u32),
         "dstr" => VD::DStr(num(&l[1])?),
+        "mx" => VD::Mx(num(&l[1])?, num(&l[2])?),
         "nossr" => VD::NoSsr(l[1..].iter().map(rd).collect::<Option<_>>()?),
         "nohydrate" => VD::NoHydrate(l[1..].iter().map(rd).collect::<Option<_>>()?),
         _ => return None,
@@ -198,6 +238,7 @@ pub fn build(v: &VD, sigs: &[Signal<u32>]) -> View {
             View::new()
         }
         VD::DStr(g) => { let s = sigs[*g]; View::from_dynamic(move || -> &'static str { if s.get() % 2 == 0 { "even" } else { "odd" } }) }
+        VD::Mx(k, g) => mx_build(*k, sigs[*g]),
         VD::NoSsr(cs) => {
             let (cs, sigs) = (cs.clone(), sigs.to_vec());
             view! { NoSsr(children=Children::new(move || View::from(cs.iter().map(|c| build(c, &sigs)).collect::<Vec<View>>()))) }
@@ -232,6 +273,7 @@ pub fn freeze(v: &VD, store: &[u32]) -> VD {
         VD::Text(s) => VD::Text(s.clone()),
         VD::DText(g) => VD::Text(dtext_str(store[*g])),
         VD::DStr(g) => VD::Text(if store[*g] % 2 == 0 { "even".into() } else { "odd".into() }),
+        VD::Mx(k, g) => freeze(&mx_equiv(*k, *g), store),
         VD::DView(g, alts) | VD::DView0(g, alts) => if alts.is_empty() { VD::Frag(vec![]) } else { VD::Frag(fl(&alts[store[*g] as usize % alts.len()])) },
         VD::Show(g, cs) => if store[*g] % 2 == 1 { VD::Frag(fl(cs)) } else { VD::Frag(vec![]) },
         VD::Frag(cs) | VD::NoHydrate(cs) | VD::NoSsr(cs) => VD::Frag(fl(cs)),
